@@ -88,3 +88,6 @@ func C18LockConn(s *C18ServerConn) (unlock func()) {
 	s.sc.mu.Lock()
 	return s.sc.mu.Unlock
 }
+
+// C18Disconnect forwards to serverConnection.disconnect.
+func C18Disconnect(s *C18ServerConn) { s.sc.disconnect() }
